@@ -160,13 +160,13 @@ func (s *Stream) Read(p []byte) (int, error) {
 				f.done = true
 				s.nTransient++
 				s.errEvent()
-				return 0, ErrInjected
+				return 0, InjectedErr(f.Arg)
 			}
 		case FaultSticky:
 			s.nSticky++
 			s.errEvent()
 			s.Abandon()
-			return 0, ErrInjected
+			return 0, InjectedErr(f.Arg)
 		case FaultEOFEarly:
 			if !f.done {
 				f.done = true
@@ -216,7 +216,7 @@ func (s *Stream) Read(p []byte) (int, error) {
 			f.done = true
 			s.nDataErr++
 			s.errEvent()
-			return n, ErrInjected
+			return n, InjectedErr(f.Arg)
 		}
 	}
 	return n, nil
